@@ -96,4 +96,39 @@ HasNilEquity(j, idx) == \E p \in (idx + 1)..Len(j) : j[p].k = "eq" /\ j[p].old =
 Panics(j, idx, Dv) == \/ "Dev_RevertVersionGapPanics" \in Dv /\ HasGap(j, idx)
                       \/ "Dev_UndoFirstEquityPanics" \in Dv /\ HasNilEquity(j, idx)
 
+\* ---------------------------------------------------------------- publishing the block's logs and redo
+\* (Manager.MergeChangeLogs / log_compressor.go, Manager.Finalise, Manager.RebuildAll / ChangeLog.Redo)
+\*   Dev_MergeAcrossSuicide   MergeChangeLogs folds a later balance/votes/voteFor/supply/equity log into the first log
+\*                            of that kind even when a self-destruct log of the account lies in between, so the
+\*                            published order replays the self-destruct AFTER the later write
+\*   Dev_WorthlessSuicideDropped  IsValuable drops the self-destruct log of an account with zero balance, no code and
+\*                            no committed storage, so the replay neither sets the flag nor wipes the dirty storage
+\* kinds whose logs are folded into the first log of the same kind (and key) of the account
+Mergeable == {"bal", "vf", "votes", "asup", "eq"}
+\* a log that changes nothing is not published (IsValuable)
+Valuable(e, z, Dv) == CASE e.k \in {"bal", "s1", "s2", "votes", "vf", "asup", "aid", "p1", "p2"} -> e.old # e.new
+                        [] e.k = "code" -> e.new # ""
+                        [] e.k = "sui"  -> \/ "Dev_WorthlessSuicideDropped" \notin Dv
+                                           \/ Get(e.old, "bal", 0) # 0 \/ Get(e.old, "chash", "") # "" \/ Get(e.old, "rs", z) # z
+                        [] OTHER -> TRUE
+LastSui(out) == IF \E i \in 1..Len(out) : out[i].k = "sui"
+                THEN CHOOSE i \in 1..Len(out) : out[i].k = "sui" /\ \A m \in (i + 1)..Len(out) : out[m].k # "sui"
+                ELSE 0
+RECURSIVE MergeAcc(_, _, _)
+\* merge the logs js of ONE account, in journal order
+MergeAcc(js, out, Dv) ==
+  IF js = <<>> THEN out
+  ELSE LET e == Head(js)
+           barrier == IF "Dev_MergeAcrossSuicide" \in Dv THEN 0 ELSE LastSui(out)
+           hits == {i \in (barrier + 1)..Len(out) : out[i].k = e.k}
+       IN IF e.k \in Mergeable /\ hits # {}
+          THEN MergeAcc(Tail(js), [out EXCEPT ![CHOOSE i \in hits : TRUE].new = e.new], Dv)
+          ELSE MergeAcc(Tail(js), Append(out, e), Dv)
+Published(j, a, z, Dv) == LET mine(e) == e.a = a
+                              keep(e) == Valuable(e, z, Dv)
+                          IN SelectSeq(MergeAcc(SelectSeq(j, mine), <<>>, Dv), keep)
+RECURSIVE RedoAcc(_, _, _)
+\* RebuildAll: the published logs of the account re-applied in order to its committed record
+RedoAcc(r, logs, z) == IF logs = <<>> THEN r ELSE RedoAcc(Effect(r, Head(logs).k, Head(logs).new, z), Tail(logs), z)
+Redone(b, j, z, Dv) == [a \in DOMAIN b |-> RedoAcc(b[a], Published(j, a, z, Dv), z)]
 ====
